@@ -272,6 +272,18 @@ struct Scan<'a> {
     closures: Vec<((usize, usize), (usize, usize))>,
 }
 
+/// finds `let [mut] NAME = ...` (plain identifier pattern, no type ascription yet) and returns the end offset of the pattern
+struct LetFinder<'a> { src: &'a Src, name: String, found: Vec<usize> }
+impl<'a, 'ast> Visit<'ast> for LetFinder<'a> {
+    fn visit_local(&mut self, l: &'ast syn::Local) {
+        if let syn::Pat::Ident(pi) = &l.pat {
+            if pi.ident == self.name {
+                self.found.push(self.src.range(l.pat.span()).1);
+            }
+        }
+        syn::visit::visit_local(self, l);
+    }
+}
 fn pat_idents(p: &syn::Pat, out: &mut Vec<String>) {
     match p {
         syn::Pat::Ident(i) => out.push(i.ident.to_string()),
@@ -345,6 +357,8 @@ struct Rewriter<'a, 'e> {
     ed: &'e mut Editor<'a>,
     abort_allowed: bool,
     fired: BTreeMap<String, usize>,
+    /// R22: (callee, extra ghost argument text) -- every call of `callee` gets the extra (erased) argument appended
+    thread: Vec<(String, String)>,
 }
 
 const LOG_MACROS: &[&str] = &["trace", "debug", "info", "warn", "error", "println", "eprintln", "print", "eprint"];
@@ -516,6 +530,19 @@ impl<'a, 'e> Rewriter<'a, 'e> {
 }
 
 impl<'a, 'e, 'ast> Visit<'ast> for Rewriter<'a, 'e> {
+    fn visit_expr_call(&mut self, c: &'ast syn::ExprCall) {
+        // R22: ghost-state threading -- `f(args)` -> `f(args, <ghost arg>)`; the extra argument is Ghost/Tracked (erased at run time)
+        if let syn::Expr::Path(p) = &*c.func {
+            let nm = last_seg(&p.path);
+            if let Some((_, extra)) = self.thread.iter().find(|(n, _)| *n == nm).cloned() {
+                let close = self.src.off(c.paren_token.span.close().start());
+                let sep = if c.args.is_empty() || c.args.trailing_punct() { "" } else { ", " };
+                self.ed.insert(close, format!("{}{}", sep, extra), 0, "R22");
+                self.fire("R22");
+            }
+        }
+        syn::visit::visit_expr_call(self, c);
+    }
     fn visit_stmt_macro(&mut self, m: &'ast syn::StmtMacro) {
         self.macro_rule(&m.mac, m.span(), m.semi_token.is_some());
     }
@@ -652,7 +679,8 @@ impl<'a, 'e, 'ast> Visit<'ast> for Rewriter<'a, 'e> {
         }
         // R15: OPT.as_ref().map(|x| BODY)  ->  (match OPT.as_ref() { Some(x) => Some(BODY), None => None })
         //      (the definition of Option::map; if the receiver were not an Option the result would not type-check)
-        else if name == "map" && m.args.len() == 1 && Self::is_method(&m.receiver, "as_ref", 0).is_some() {
+        //      also for `VAR.map(|x| BODY)` with a plain variable as receiver (an Option local; anything else fails to type-check)
+        else if name == "map" && m.args.len() == 1 && (Self::is_method(&m.receiver, "as_ref", 0).is_some() || matches!(&*m.receiver, syn::Expr::Path(_))) {
             if let syn::Expr::Closure(c) = &m.args[0] {
                 if c.inputs.len() == 1 {
                     if let syn::Pat::Ident(pi) = &c.inputs[0] {
@@ -697,6 +725,12 @@ impl<'a, 'e, 'ast> Visit<'ast> for Rewriter<'a, 'e> {
             self.fire("R6");
         }
         let _ = e;
+        if let Some((_, extra)) = self.thread.iter().find(|(n, _)| *n == name).cloned() {
+            let close = self.src.off(m.paren_token.span.close().start());
+            let sep = if m.args.is_empty() || m.args.trailing_punct() { "" } else { ", " };
+            self.ed.insert(close, format!("{}{}", sep, extra), 0, "R22");
+            self.fire("R22");
+        }
         syn::visit::visit_expr_method_call(self, m);
     }
 }
@@ -829,6 +863,17 @@ fn process_fn(ctx: &mut Ctx, d: &FnDirective, assume_default: bool, tfile: &str)
             }
         }
     }
+    // R22 (callee side): extra ghost parameter appended to the parameter list
+    let mut n_extra = 0usize;
+    let mut n_r23 = 0usize;
+    for (a, t) in &d.sections {
+        if a == "extra_param" {
+            let close = src.off(loc.sig.paren_token.span.close().start());
+            let sep = if loc.sig.inputs.is_empty() || loc.sig.inputs.trailing_punct() { "" } else { ", " };
+            ed.insert(close, format!("{}{}", sep, t.trim()), 0, "extra_param");
+            n_extra += 1;
+        }
+    }
     // R0: named return value
     if let Some(r) = &d.ret {
         match &loc.sig.output {
@@ -867,6 +912,16 @@ fn process_fn(ctx: &mut Ctx, d: &FnDirective, assume_default: bool, tfile: &str)
             let words: Vec<&str> = a.split_whitespace().collect();
             let lost = |what: &str| -> ! { fail(format!("{}:{}: lost anchor `{}` in {} ({})", tfile, d.tline, a, d.qual, what)) };
             match words[0] {
+                "extra_param" | "thread" => {}
+                "lettype" => {
+                    // R23: type ascription on a local whose type rustc infers from later statements but a loop invariant needs earlier
+                    let (nm, n) = resolve_n(words.get(1).unwrap_or_else(|| lost("missing name")));
+                    let mut lf = LetFinder { src, name: nm, found: vec![] };
+                    lf.visit_block(loc.block);
+                    let pos = *lf.found.get(n).unwrap_or_else(|| lost("no such untyped let"));
+                    ed.insert(pos, format!(": {}", t.trim()), 0, a);
+                    n_r23 += 1;
+                }
                 "attr" => ed.insert(fstart, format!("{}    ", t), 0, a),
                 "sig" => ed.insert(block_open, format!("\n{}    ", t), 0, a),
                 "entry" => ed.insert(block_open + 1, format!("\n{}", t.trim_end_matches('\n')), 0, a),
@@ -950,7 +1005,11 @@ fn process_fn(ctx: &mut Ctx, d: &FnDirective, assume_default: bool, tfile: &str)
         }
         // rewrite rules
         {
-            let mut rw = Rewriter { src, ed: &mut ed, abort_allowed, fired: BTreeMap::new() };
+            let thread: Vec<(String, String)> = d.sections.iter().filter_map(|(a, t)| {
+                let w: Vec<&str> = a.split_whitespace().collect();
+                if w[0] == "thread" { Some((w.get(1).unwrap_or_else(|| fail(format!("{}:{}: //@thread needs a callee", tfile, d.tline))).to_string(), t.trim().to_string())) } else { None }
+            }).collect();
+            let mut rw = Rewriter { src, ed: &mut ed, abort_allowed, fired: BTreeMap::new(), thread };
             rw.visit_block(loc.block);
             fired = rw.fired;
         }
@@ -962,6 +1021,12 @@ fn process_fn(ctx: &mut Ctx, d: &FnDirective, assume_default: bool, tfile: &str)
         }
         body
     };
+    if n_extra > 0 {
+        *fired.entry("R22".into()).or_insert(0) += n_extra;
+    }
+    if n_r23 > 0 {
+        *fired.entry("R23".into()).or_insert(0) += n_r23;
+    }
     for (k, v) in &fired {
         *ctx.rules_fired.entry(k.clone()).or_insert(0) += v;
     }
@@ -987,7 +1052,8 @@ fn process_fn(ctx: &mut Ctx, d: &FnDirective, assume_default: bool, tfile: &str)
     ctx.regions.push(json!({
         "kind": "fn", "name": d.qual, "mode": if mode_assume {"assume"} else {"prove"},
         "props": props, "out_lines": [start_line, end_line],
-        "repo_file": d.file, "repo_lines": [l0, l1], "src_fnv64": sha(&srctext),
+        "repo_file": d.file.split('#').next().unwrap(), "repo_lines": [l0, l1], "src_fnv64": sha(&srctext),
+        "outlined": d.file.contains('#'),
         "abort_allowed": abort_allowed,
         "rules": fired, "anchors": anchors_used, "template": format!("{}:{}", tfile, d.tline),
     }));
@@ -1217,6 +1283,87 @@ fn process_template(ctx: &mut Ctx, path: &Path, assume: bool, depth: usize) {
                     ctx.emit(&format!("// <<< {}\n", newname));
                     ctx.regions.push(json!({"kind": "fn", "name": newname, "mode": "prove", "props": props, "out_lines": [start_line, end_line],
                         "repo_file": file, "repo_lines": [l0, l1], "src_fnv64": h, "abort_allowed": false, "rules": {"R9": 1}, "anchors": [], "template": format!("{}:{}", tfile, tline)}));
+                    *ctx.rules_fired.entry("R9".into()).or_insert(0) += 1;
+                    i = j;
+                }
+                "outline" => {
+                    // R9 (generalised): //@outline <file> <fn> name=<newfn> from=<anchor> [to=<anchor>]
+                    //   anchors: loop:<k> | let:<name>[#n] | call:<name>[#n]   (whole statements of <fn>, inclusive range)
+                    //   sections: //@params <text>  //@rettype <text>  //@result <expr>  //@end
+                    // registers a virtual source `<file>#<newfn>` holding `fn <newfn>(<params>) [-> <rettype>] { <the statements, verbatim> <result> }`,
+                    // line-aligned with the real file; a following `//@fn <file>#<newfn> <newfn> ...` treats it like any other function.
+                    let tline = i + 1;
+                    let file = words[1].to_string();
+                    let fname = words[2].to_string();
+                    let o = Opts::parse(&words[3..]);
+                    let newname = o.get("name").unwrap_or_else(|| fail(format!("{}:{}: //@outline needs name=", tfile, tline))).to_string();
+                    let from = o.get("from").unwrap_or_else(|| fail(format!("{}:{}: //@outline needs from=", tfile, tline))).to_string();
+                    let to = o.get("to").unwrap_or(&from).to_string();
+                    let (mut params, mut rettype, mut result) = (String::new(), String::new(), String::new());
+                    let mut j = i + 1;
+                    loop {
+                        if j >= lines.len() { fail(format!("{}:{}: unterminated //@outline", tfile, tline)); }
+                        let lt = lines[j].trim_start();
+                        if let Some(r) = lt.strip_prefix("//@") {
+                            let w: Vec<&str> = r.splitn(2, ' ').collect();
+                            match w[0] {
+                                "end" => break,
+                                "params" => params = w.get(1).unwrap_or(&"").to_string(),
+                                "rettype" => rettype = w.get(1).unwrap_or(&"").to_string(),
+                                "result" => result = w.get(1).unwrap_or(&"").to_string(),
+                                x => fail(format!("{}:{}: unknown //@outline section {}", tfile, j + 1, x)),
+                            }
+                        }
+                        j += 1;
+                    }
+                    ctx.src(&file);
+                    let vsrc = {
+                        let src = &ctx.srcs[&file];
+                        let loc = find_fn(&src.ast.items, &fname).unwrap_or_else(|| fail(format!("{}:{}: function {} not found in {}", tfile, tline, fname, file)));
+                        let mut scan = Scan { src, loops: vec![], stmts: vec![], calls: vec![], closures: vec![] };
+                        scan.visit_block(loc.block);
+                        let resolve = |anchor: &str| -> (usize, usize) {
+                            let lost = |what: &str| -> ! { fail(format!("{}:{}: lost anchor `{}` in {} ({})", tfile, tline, anchor, fname, what)) };
+                            let (kind, rest) = anchor.split_once(':').unwrap_or_else(|| lost("anchor needs kind:name"));
+                            let stmt_of = |r: (usize, usize)| -> Option<(usize, usize)> {
+                                scan.stmts.iter().filter(|s| s.range.0 <= r.0 && r.1 <= s.range.1).min_by_key(|s| s.range.1 - s.range.0).map(|s| s.range)
+                            };
+                            match kind {
+                                "loop" => {
+                                    let k: usize = rest.parse().unwrap_or_else(|_| lost("bad loop index"));
+                                    let lp = scan.loops.get(k).unwrap_or_else(|| lost("no such loop"));
+                                    stmt_of(lp.whole).unwrap_or(lp.whole)
+                                }
+                                "let" => {
+                                    let (nm, n) = resolve_n(rest);
+                                    scan.stmts.iter().filter(|s| s.lets.iter().any(|l| *l == nm)).nth(n).unwrap_or_else(|| lost("no such let")).range
+                                }
+                                "call" => {
+                                    let (nm, n) = resolve_n(rest);
+                                    let c = scan.calls.iter().filter(|c| c.name == nm).nth(n).unwrap_or_else(|| lost("no such call"));
+                                    stmt_of(c.range).unwrap_or_else(|| lost("call not inside a statement"))
+                                }
+                                _ => lost("unknown anchor kind"),
+                            }
+                        };
+                        let (a, _) = resolve(&from);
+                        let (_, b) = resolve(&to);
+                        if b <= a { fail(format!("{}:{}: lost anchor: outline range of {} is empty/reversed", tfile, tline, fname)); }
+                        let l0 = src.line_of(a);
+                        let ls = src.line_starts[l0 - 1];
+                        let mut vt = String::new();
+                        for _ in 0..l0.saturating_sub(2) { vt.push('\n'); }
+                        let ret = if rettype.trim().is_empty() { String::new() } else { format!(" -> {}", rettype.trim()) };
+                        vt.push_str(&format!("fn {}({}){} {{\n", newname, params.trim(), ret));
+                        for _ in 0..(a - ls) { vt.push(' '); }
+                        vt.push_str(&src.text[a..b]);
+                        vt.push_str(&format!("\n        {}\n}}\n", result.trim()));
+                        let ast = syn::parse_file(&vt).unwrap_or_else(|e| fail(format!("{}:{}: outlined text of {} does not parse: {}", tfile, tline, fname, e)));
+                        let mut line_starts = vec![0usize];
+                        for (k, bb) in vt.bytes().enumerate() { if bb == b'\n' { line_starts.push(k + 1); } }
+                        Src { rel: file.clone(), text: vt, ast, line_starts }
+                    };
+                    ctx.srcs.insert(format!("{}#{}", file, newname), vsrc);
                     *ctx.rules_fired.entry("R9".into()).or_insert(0) += 1;
                     i = j;
                 }
